@@ -24,6 +24,8 @@ REGISTRY = {
     "C14": ("apiharness", {"rel": ["h_terms"]}),
     "C15": ("apiharness", {"asan": ["h_rational"]}),
     "C16": ("apiharness", {"asan": ["h_numparse"]}),
+    "C27": ("apiharness", {"asan": ["h_intround"]}),
+    "C17": ("printing", {"rel": []}),
     "C18": ("procmon", {"asan": []}),
     "C19": ("rejected", {"rel": []}),
     "C20": ("procmon", {"rel": []}),
